@@ -212,8 +212,11 @@ def builtin(it, name):
                     return int(c) if c.denominator == 1 else c
                 return k
             keys = [lit_key(it.call(key, [x], {})) for x in xs]
-            if all(num(k) or isinstance(k, (str, tuple)) for k in keys):
-                order = sorted(range(len(xs)), key=lambda i: keys[i], reverse=reverse)
+            if all(num(k) or isinstance(k, (str, tuple, bool)) for k in keys):
+                try:
+                    order = sorted(range(len(xs)), key=lambda i: keys[i], reverse=reverse)
+                except TypeError:
+                    raise Undecided("sorted() with abstract keys")
                 return [xs[i] for i in order]
             raise Undecided("sorted() with abstract keys")
         if all(num(x) or isinstance(x, (str, tuple)) for x in xs):
@@ -552,6 +555,10 @@ class GroupList(list):
         if isinstance(k, (list, ColList)) and list(k) == [c for c in self.df.cols if not c.startswith("__")]:
             self._it = it
             return self                                      # all columns selected
+        if isinstance(k, (list, ColList)) and k and all(isinstance(c, str) and c in self.df.cols for c in k):
+            g = GroupList(self.df, self.by, [(key, load_subscript(it, sub, list(k))) for key, sub in self])          # a subset of the columns, same groups in the same order
+            g._it = it
+            return g
         raise Undecided(f"groupby[{k!r}]")
 
     def apply(self, f, *args, **kw):
@@ -763,6 +770,13 @@ def load_subscript(it, obj, k):
         v = obj.obj
         if isinstance(k, slice) and obj.name == "iloc":
             return Vec(v.v[_int_slice(k, len(v.v))], aligned=v.aligned)
+        if isinstance(k, int) and not isinstance(k, bool) and obj.name in ("at", "loc") and v.labels is not None and (v.aligned or v.fresh) and len(v.labels) == len(v.v):
+            hits = [i for i, l in enumerate(v.labels) if l == k]              # label lookup on a Series with literal labels
+            if not hits:
+                raise Raised("KeyError", str(k))
+            if len(hits) > 1:
+                raise Undecided(f".{obj.name}[{k}] on a Series with a repeated label")
+            return v.v[hits[0]]
         if isinstance(k, int):
             if not v.v:
                 raise Raised("IndexError")
@@ -912,6 +926,14 @@ def store_subscript(it, obj, k, v, aug=False):
             mask, col = k
         else:
             mask, col = None, k
+        if isinstance(col, (list, tuple)) and col and all(isinstance(c, str) for c in col) and accessor in ("loc", None) and isinstance(k, tuple):
+            # .loc[rows, [col, ...]] = value: the same rows of each listed column (one scalar for all, or one per column)
+            vals = list(v) if isinstance(v, (list, tuple)) and len(v) == len(col) else None
+            if vals is None and isinstance(v, (list, tuple, Vec, DF)):
+                raise Undecided(f"table store of {type(v).__name__} into columns {list(col)}")
+            for j, c in enumerate(col):
+                store_subscript(it, BoundMethod(obj, accessor) if accessor else obj, (mask, c), vals[j] if vals is not None else v, aug)
+            return
         if accessor in ("loc", "at") and isinstance(mask, int) and not isinstance(mask, bool) and obj.labels is not None and isinstance(col, str):
             # .loc[<label>, col] = v: every row carrying that label (labels may repeat, e.g. after pd.concat without ignore_index)
             pos = [i for i, l in enumerate(obj.labels) if l == mask]
@@ -996,10 +1018,13 @@ def store_subscript(it, obj, k, v, aug=False):
     if isinstance(obj, Vec):
         if hasattr(k, "as_mask"):
             k = k.as_mask()
-        if isinstance(k, Vec):
+        if isinstance(k, Vec) and isinstance(v, Vec) and len(k.v) == len(obj.v) and all(isinstance(m, bool) for m in k.v) and len(v.v) == sum(k.v) != len(obj.v):
+            vals = iter(v.v)                               # arr[mask] = <one value per selected slot>
+            obj.v = [next(vals) if m else ov for m, ov in zip(k.v, obj.v)]
+        elif isinstance(k, Vec):
             newv = bcast(v, len(obj.v))
             obj.v = [nv if m is True else ov for m, ov, nv in zip(k.v, obj.v, newv)]
-        elif isinstance(k, int) and not isinstance(k, bool) and obj.labels is not None and (obj.aligned or obj.fresh) and len(obj.labels) == len(obj.v):
+        elif isinstance(k, int) and not isinstance(k, bool) and accessor not in ("iloc", "iat") and obj.labels is not None and (obj.aligned or obj.fresh) and len(obj.labels) == len(obj.v):
             # a Series with literal integer labels: `ser[k] = v` writes the row labelled k (and appends a new row when no such label exists)
             if k in obj.labels:
                 obj.v[obj.labels.index(k)] = v
@@ -1584,7 +1609,10 @@ def df_method(it, obj, name, args, kw):
                 v = it.call(v, [d], {})
             if isinstance(v, (list, tuple)) and len(v) == d.n:
                 v = Vec(v)
-            d.cols[k] = Vec(bcast(v, d.n), aligned=True)
+            if isinstance(v, Vec) and (v.fresh or v.aligned):
+                store_subscript(it, d, k, v)          # a Series is aligned by label, exactly like `frame[col] = series` (same hazards)
+            else:
+                d.cols[k] = Vec(bcast(v, d.n), aligned=True)
         return d
     if name == "itertuples":
         fields = [c for c in obj.cols if not c.startswith("__")]
@@ -1778,6 +1806,8 @@ def ext_call(it, dotted, args, kw):
     if name in ("np.isnan", "pd.isnull", "pd.isna", "math.isnan"):
         return lift1(is_nan, args[0])
     if name == "np.flatnonzero" and args and isinstance(args[0], Vec) and all(isinstance(x, bool) for x in args[0].v):
+        if not args[0].exact:
+            return MaskIdx(args[0])                  # one slot per row class: the positions where the mask holds, kept as the mask (like np.nonzero(mask)[0])
         return Vec([i for i, x in enumerate(args[0].v) if x])
     if name == "np.nonzero" and args and isinstance(args[0], Vec):
         return (MaskIdx(args[0]),)
@@ -1937,12 +1967,17 @@ def ext_call(it, dotted, args, kw):
         return Opaque(name)
     if name == "np.concatenate":
         out = []
+        all_exact = True
         for part in it.iterate(args[0]):
+            if isinstance(part, (list, tuple)) and all(not isinstance(x, (list, tuple, Vec)) for x in part):
+                out.extend(part)                         # a literal list among the arrays ([False] + mask)
+                continue
             if not isinstance(part, Vec):
                 return Opaque(name)
+            all_exact = all_exact and part.exact
             out.extend(part.v)
         r = Vec(out)
-        r.exact = bool(parts_exact(it, args[0]))
+        r.exact = bool(all_exact)
         return r
     if name == "np.allclose" and len(args) >= 2 and isinstance(args[0], Vec) and isinstance(args[1], Vec):
         a, b = _lits(args[0].v), _lits(args[1].v)
